@@ -33,6 +33,7 @@ func runC12(c *Ctx) {
 	lockOrderRules(c, "C12.R7", "C12.R7s", func(cl string) bool { return strings.HasPrefix(cl, "multiplex.") })
 	condvarRules(c, "C12.R8")
 	nestedMonitorRules(c, "C12.R9", func(cl string) bool { return strings.HasPrefix(cl, "multiplex.") })
+	c12R10(c, "C12.R10")
 	// imported: every stream close wakes its reader before anything that can fail ("every blocked read returns")
 	c.importing = "C03"
 	c03R2(c, "C03.R2")
